@@ -138,6 +138,19 @@ def families(rng):
     a = ns.add(["item", w1], Decimal(7))
     b = ns.add(["item", rng.choice(["-", "/", "."]), w1], Decimal("2.5"))
     fams.append(("item-prefix",) + base(ns, {"n1": a, "n2": b}))
+    # two (three) bound names made of the same characters with the word breaks in other places: `w1 w2` / `w1w2`, `a b c` / `ab c` / `a bc`
+    ns = NameSet()
+    w1, w2 = rng.sample(WORDS, 2)
+    a, b = ns.add([w1, w2], Decimal(7)), ns.add([w1 + w2], Decimal("2.5"))
+    if rng.random() < 0.5:
+        a, b = b, a
+    if a and b:
+        fams.append(("same-letters-other-breaks",) + base(ns, {"n1": a, "n2": b}))
+    ns = NameSet()
+    w1, w2, w3 = rng.sample(WORDS, 3)
+    a, b, c3 = ns.add([w1, w2, w3], Decimal(7)), ns.add([w1 + w2, w3], Decimal("2.5")), ns.add([w1, w2 + w3], Decimal(20))
+    if a and b and c3:
+        fams.append(("same-letters-other-breaks",) + base(ns, {"n1": rng.choice([a, c3]), "n2": b, "n3": c3 if rng.random() < 0.5 else a}))
     # two bound names that differ in letter case only (single words and inside a two-word name)
     ns = NameSet()
     w1 = rng.choice([w for w in WORDS if w.lower() != w.upper()])
@@ -284,7 +297,7 @@ def render_spelled(tree, spellings, rng):
 def run(rep, tier, seed):
     n_rounds = 250 if tier == "quick" else 8000
     rep.rule = (
-        "%d rounds x 18 name-set families (random 1-4 word names with and without the symbols . / - ' + *, non-ASCII words; a name that is a prefix of another; a, b and a-b / a+b / a*b / a/b all bound; "
+        "%d rounds x 20 name-set families (names made of the same characters with the word breaks in other places; random 1-4 word names with and without the symbols . / - ' + *, non-ASCII words; a name that is a prefix of another; a, b and a-b / a+b / a*b / a/b all bound; "
         "a+b bound but b not; three-word symbol names) x 31 expression positions (operands of every arithmetic operator, comparisons, between, in, if, for / some / every domains and bodies, multi-word "
         "iteration variables and formal parameters, filters, context values and multi-word keys, path heads, positional and named invocation) x 2 random spellings of every name occurrence; plus histories on one scope object whose names are re-bound between parses (a context gains / loses a multi-word entry, a new multi-word name, a list becomes a list of contexts). "
         "Distinct = rendered text + name set; non-trivial = all of them (every text contains a multi-part name)." % n_rounds
